@@ -714,6 +714,15 @@ func (r *RegisteredDecoys) TotalRegistrations() int {
 	return r.totalRegistrations()
 }
 
+// totalTimeouts returns the number of timeout records. For use outside of the struct mutex (takes
+// the read lock so the map is not read while a worker tracks a registration).
+func (r *RegisteredDecoys) totalTimeouts() int {
+	r.m.RLock()
+	defer r.m.RUnlock()
+
+	return len(r.decoysTimeouts)
+}
+
 func (r *RegisteredDecoys) totalRegistrations() int {
 
 	total := 0
@@ -855,7 +864,7 @@ func (r *RegisteredDecoys) removeOldRegistrations(logger *log.Logger) (int, int)
 	verifhook.Yield("sweep:collected", nil)
 
 	logger.Debugf("cleansing registrations - registrations: %d, timeouts: %d, expired: %d",
-		r.TotalRegistrations(), len(r.decoysTimeouts), len(expiredRegTimeoutIndices))
+		r.TotalRegistrations(), r.totalTimeouts(), len(expiredRegTimeoutIndices))
 
 	expiredValid := 0
 	for _, idx := range expiredRegTimeoutIndices {
